@@ -522,7 +522,8 @@ def dtype_inheritance_sites(prog: Program, funcs: list[FuncInfo]) -> list[tuple[
                 base = n.targets[0].value
                 while isinstance(base, ast.Subscript):
                     base = base.value
-                if isinstance(base, ast.Name) and base.id in inherited and isinstance(n.value, (ast.Call, ast.BinOp)):
+                computed = isinstance(n.value, (ast.Call, ast.BinOp)) or (isinstance(n.value, ast.Name) and any(isinstance(d_, (ast.Call, ast.BinOp)) for d_ in _local_defs(f, n.value.id)))
+                if isinstance(base, ast.Name) and base.id in inherited and computed:
                     # storing values taken from the same array (permutation/copy) is exact
                     names = {x.id for x in ast.walk(n.value) if isinstance(x, ast.Name)}
                     if isinstance(n.value, ast.Subscript):
